@@ -578,7 +578,7 @@ _SS = _c18_methods(SPOOLED_STRING, [
      'tie_theorem': 'C18.src_ss_seek0_eq_model'},
     {'py': 'len', 'name': 'len', 'params': {}, 'result': 'Int', 'tie_theorem': 'C18.src_ss_len_eq_model'},
     {'py': 'seek', 'name': 'seek', 'params': {'pos': 'Int', 'mode': 'Int'}, 'result': 'Int',
-     'tie_theorem': 'C18.src_ss_seek_bad_mode'},
+     'tie_theorem': 'C18.src_ss_seek_end_eq_model'},
     {'py': 'rollover', 'name': 'rollover', 'params': {}, 'result': 'None',
      'tie_theorem': 'C18.src_ss_rollover_rolled'},
     {'py': 'write', 'name': 'write', 'params': {'s': 'Str'}, 'result': 'None',
